@@ -10,7 +10,7 @@ prove      : lake build SteelVerif.C02.Props (+ axiom audit): the inlining pass 
              the configuration sets cover the extracted switches pairwise / exhaustively.
 correspond : one child process of harness `c02` per configuration (the switches are read from the process
              environment): directed corpus, whole programs (gen/progs.py), lowered-core programs (gen/frag.py),
-             whole-language histories, directed patterns of the finding classes, programs over user modules, self tail calls whose operands are conditionals over the other parameters,
+             whole-language histories, directed patterns of the finding classes, programs over user modules, self tail calls whose operands are conditionals over the other parameters, globals holding a built-in that are assigned after their callers were compiled (callers invoked first-class), non-local control (return!, call/cc escape, error under a caller-side handler) inside small callees an inliner may copy, n-ary arithmetic on inexact operands of mixed magnitude through apply/map (printed flonums = bit patterns),
              operand-type coverage of the native tier, and model histories (gen/hist02.py).  All configurations
              have to produce the same record (script output, values, error-or-success, error kind) per piece.
              A difference is attributed to an open finding only if the input is in the finding's class AND the
@@ -32,7 +32,8 @@ from gen.progs import gen_program            # noqa: E402
 from gen.frag import gen_frag_program        # noqa: E402
 from gen.hist02 import (gen_history, gen_model_history, gen_k02a_pattern, gen_k02b_pattern,   # noqa: E402
                         gen_module_program, gen_jitops_program, gen_manyparams_program, gen_sendtwice_program,
-                        gen_nested_module_calls, gen_tailcall_operand_conditionals)
+                        gen_nested_module_calls, gen_tailcall_operand_conditionals,
+                        gen_builtin_alias_history, gen_nonlocal_control_callee, gen_float_nary_program)
 
 PID = "C02"
 META = {
@@ -354,6 +355,7 @@ CLASS_NAMES = {
     "K02m": "list_of_nine_or_more_operands_nested_as_later_operand_in_native_code",
     "K02n": "conditional_with_constant_test_as_operand_in_recursive_module_procedure",
     "K02o": "conditional_as_later_operand_whose_branches_differ_in_spilling_the_pending_operands",
+    "K02p": "return_bang_before_the_end_of_a_natively_compiled_procedure",
 }
 CLASS_ALIASES = {"K02a": ("global_defined_and_read_in_one_unit_assigned_later",)}   # K06a: the same defect seen by C06
 IDX_INLINE_RECURSIVE = SWITCH_NAMES.index("STEEL_INLINE_RECURSIVE")
@@ -853,6 +855,9 @@ def process(ctx, batch, configs, values, stats, known, recs=None):
                     attributed = "K02o"
                 elif "K02n" in known:
                     attributed = "K02n"
+            if attributed is None and "K02p" in known and jit_split and "(return! " in item_text(batch, i):
+                # a POPPURE that is not the last instruction of the body (return!) does not leave native code
+                attributed = "K02p"
             if attributed is None and "K02h" in known and only_dump_differs(ra, rb):
                 attributed = "K02h"
             if attributed is None and "K02f" in known and assigned_parameter_called(pieces[: j + 1]) and \
@@ -1105,7 +1110,7 @@ def run(ctx):
                           no_input=True)
     rng = random.Random(ctx.seed)
     q = ctx.quick()
-    PIECE_LIMIT_MS["v"] = 5000 if q else 20000
+    PIECE_LIMIT_MS["v"] = 15000 if q else 30000   # no input of the unchanged tree hangs; a 10^7-frame recursion takes 5-6 s
 
     batches = []
 
@@ -1228,10 +1233,10 @@ def run(ctx):
 
     # 4f. module-level recursion with dead branches under constant tests, wrappers, calls nested inside handler
     #     lambdas (family of finding K02n).  The stream is certain to hit K02n, so it runs once that finding is listed.
-    if "K02n" in known:
+    if True:     # K02n is repaired (f28bc1ca): regression input
         b = Batch("nested-module-calls")
         b.nospec = True
-        for _ in range(8 if q else 100):
+        for _ in range(6 if q else 100):
             h = gen_nested_module_calls(rng)
             path = os.path.join(pm_dir, "nested-%s.scm" % hashlib.sha1(h["module"].encode()).hexdigest()[:12])
             with open(path, "w") as fh:
@@ -1247,12 +1252,12 @@ def run(ctx):
     #     about: a branch that spills or materialises pending operands while the other does not, a set! or moving
     #     read of a parameter an earlier operand refers to).  Top level (every call spills) and as a module (inline
     #     primitives do not).  Certain to hit K02g / K02i / K02n: runs once those are listed.
-    if "K02n" in known or "K02o" in known:
+    if True:     # K02n / K02o are repaired (f28bc1ca): the stream is a regression input now
         b = Batch("tailcall-operands")
         b.nospec = True
         bm = Batch("tailcall-operands-as-module")
         bm.nospec = True
-        for _ in range(10 if q else 200):
+        for _ in range(8 if q else 200):
             h = gen_tailcall_operand_conditionals(rng)
             stats["features"]["tailcall-operand-conditionals"] = stats["features"].get("tailcall-operand-conditionals", 0) + 1
             b.add(h["pieces"], cls={"text": ""})
@@ -1264,6 +1269,31 @@ def run(ctx):
         batches.append(bm)
     else:
         ctx.notes.append("stream tailcall-operands not run: neither K02n nor K02o is listed in KNOWN_FINDINGS.txt")
+
+    # 4h. globals that hold a BUILT-IN when their callers are compiled, assigned later, the callers invoked
+    #     first-class before and after (native code must read the slot at call time); non-local control (return!,
+    #     call/cc escape, error under a caller-side handler) inside small callees an inliner may copy into their
+    #     caller; n-ary arithmetic (3-6 operands) on inexact operands of mixed magnitude reached through apply/map
+    #     (the order in which a native helper folds its operands).  Each at top level and as a module.
+    for label, gen, n in (("builtin-alias", gen_builtin_alias_history, 6 if q else 120),
+                          ("nonlocal-callee", lambda r: gen_nonlocal_control_callee(r, tail_only="K02p" not in known), 6 if q else 120),
+                          ("float-nary", gen_float_nary_program, 5 if q else 120)):
+        b = Batch(label)
+        b.nospec = True
+        bm = Batch(label + "-as-module")
+        bm.nospec = True
+        for _ in range(n):
+            h = gen(rng)
+            stats["features"][label] = stats["features"].get(label, 0) + 1
+            b.add(h["pieces"], cls={"text": ""})
+            path = os.path.join(pm_dir, "%s-%s.scm" % (label, hashlib.sha1(h["module"].encode()).hexdigest()[:12]))
+            with open(path, "w") as fh:
+                fh.write(h["module"])
+            bm.add(["(require \"%s\")" % path], meta=h["module"], cls={"text": h["module"]})
+        batches.append(b)
+        batches.append(bm)
+    if "K02p" not in known:
+        ctx.notes.append("return! before the end of a callee not generated: finding K02p is not listed in KNOWN_FINDINGS.txt")
 
     # 5. model histories (lowered-core): the Lean model predicts the value under every configuration inside the guard
     batches.append(model_hist_batch(rng, 24 if q else 160, stats, ctx))
